@@ -457,6 +457,103 @@ fn ser_subs(subs: &Option<Substitutions>) -> R {
     })
 }
 
+
+/// Flatten a token stream into one string per token (multi-character punctuation joined,
+/// a lifetime is one token), independent of `to_string` spacing.
+fn flatten(stream: TokenStream2, out: &mut Vec<String>) {
+    use proc_macro2::{Delimiter, Spacing, TokenTree};
+
+    let mut pending = String::new();
+    for tt in stream {
+        match tt {
+            TokenTree::Punct(p) => {
+                pending.push(p.as_char());
+                if p.spacing() == Spacing::Alone {
+                    out.push(core::mem::take(&mut pending));
+                }
+            }
+            TokenTree::Ident(i) => {
+                pending.push_str(&i.to_string());
+                out.push(core::mem::take(&mut pending));
+            }
+            TokenTree::Literal(l) => {
+                if !pending.is_empty() {
+                    out.push(core::mem::take(&mut pending));
+                }
+                out.push(l.to_string());
+            }
+            TokenTree::Group(g) => {
+                if !pending.is_empty() {
+                    out.push(core::mem::take(&mut pending));
+                }
+                let (open, close) = match g.delimiter() {
+                    Delimiter::Parenthesis => ("(", ")"),
+                    Delimiter::Brace => ("{", "}"),
+                    Delimiter::Bracket => ("[", "]"),
+                    Delimiter::None => ("", ""),
+                };
+                if !open.is_empty() {
+                    out.push(open.into());
+                }
+                flatten(g.stream(), out);
+                if !close.is_empty() {
+                    out.push(close.into());
+                }
+            }
+        }
+    }
+    if !pending.is_empty() {
+        out.push(pending);
+    }
+}
+
+fn ser_tokens(stream: TokenStream2) -> String {
+    let mut out = Vec::new();
+    flatten(stream, &mut out);
+    node("Strs", "", out.iter().map(|t| leaf("S", t)).collect())
+}
+
+/// A hasher that records what is fed to it: strings (re-tokenized, so that the record does
+/// not depend on `to_string` spacing) and single bytes.
+#[derive(Default)]
+struct RecordingHasher(Vec<String>, Vec<u8>);
+
+impl core::hash::Hasher for RecordingHasher {
+    fn finish(&self) -> u64 {
+        0
+    }
+
+    fn write(&mut self, bytes: &[u8]) {
+        self.1.extend_from_slice(bytes);
+    }
+
+    fn write_u8(&mut self, byte: u8) {
+        if byte == 0xff {
+            // terminator of `str::hash`
+            let text = String::from_utf8_lossy(&core::mem::take(&mut self.1)).into_owned();
+            let mut toks = Vec::new();
+            match text.parse::<TokenStream2>() {
+                Ok(stream) => flatten(stream, &mut toks),
+                Err(_) => toks.push(text),
+            }
+            self.0.push(toks.join(" "));
+        } else {
+            self.0.push(format!("u8:{byte}"));
+        }
+    }
+}
+
+fn ser_hash_input(bound: &TraitBound) -> String {
+    use core::hash::Hash;
+
+    let mut hasher = RecordingHasher::default();
+    bound.hash(&mut hasher);
+    if !hasher.1.is_empty() {
+        hasher.0.push(format!("raw:{:?}", hasher.1));
+    }
+    node("Strs", "", hasher.0.iter().map(|t| leaf("S", t)).collect())
+}
+
 fn parse<T: syn::parse::Parse>(src: &str) -> Result<T, String> {
     syn::parse_str::<T>(src).map_err(|e| format!("parse error: {e}: {src}"))
 }
@@ -527,6 +624,28 @@ fn respond(line: &str) -> R {
                 out.push(leaf("None", ""));
             }
             Ok(join(out))
+        }
+        // identity of trait bounds: eq, recorded hash input, printed form
+        ["tb", a, b] => {
+            let (a, b) = (TraitBound(parse::<syn::Path>(a)?), TraitBound(parse::<syn::Path>(b)?));
+            Ok(join(vec![
+                ser_path(&a.0)?,
+                ser_path(&b.0)?,
+                leaf("Bool", if a == b { "true" } else { "false" }),
+                ser_hash_input(&a),
+                ser_hash_input(&b),
+                ser_tokens(a.to_token_stream()),
+                ser_tokens(b.to_token_stream()),
+            ]))
+        }
+        // ToTokens of a type (the model's token printer is checked against it)
+        ["tokens_ty", a] => {
+            let a = parse::<syn::Type>(a)?;
+            Ok(join(vec![ser_type(&a)?, ser_tokens(a.to_token_stream())]))
+        }
+        ["tokens_path", a] => {
+            let a = parse::<syn::Path>(a)?;
+            Ok(join(vec![ser_path(&a)?, ser_tokens(a.to_token_stream())]))
         }
         _ => Err(format!("unknown request: {line}")),
     }
